@@ -222,3 +222,37 @@ void bad_cap(void)					/* control: one past what was written */
 	for (i = 1; i <= lastdfa; ++i) mkdata(acc[i]);
 	mkdata(acc[i + 1]);
 }
+
+/* ---------------------------------------------------------------- R10 */
+struct aux_like { int flags; int namelen; int printlen; };
+struct holder { struct aux_like *items; int n; };
+void good_fill(struct holder *h)
+{
+	int i;
+	h->items = malloc((size_t) h->n * sizeof(struct aux_like));
+	for (i = 0; i < h->n; i++) {
+		struct aux_like *a = h->items + i;
+		a->flags = 0;
+		a->flags |= 1;			/* conforming: read after the store */
+		a->namelen = 0;
+		if (a->flags & 1) a->namelen++;
+		a->printlen = a->namelen;
+	}
+}
+void bad_fill(struct holder *h)			/* control: |= on a never written field */
+{
+	int i;
+	h->items = malloc((size_t) h->n * sizeof(struct aux_like));
+	for (i = 0; i < h->n; i++) {
+		struct aux_like *a = h->items + i;
+		a->flags |= 1;
+		a->namelen = 0;
+		a->printlen = 0;
+	}
+}
+int *bad_fill_scalar(int n2)			/* control: ++ on a fresh scalar element */
+{
+	int i, *v = malloc((size_t) n2 * sizeof(int));
+	for (i = 0; i < n2; ++i) v[i]++;
+	return v;
+}
